@@ -436,6 +436,13 @@ class Merge(Expr):
         # Blockwise merge
         return BlockwiseMerge(left, right, **self.kwargs)
 
+    def _join_columns(self):
+        """Columns of the left and of the right input that the join itself reads;
+        a projection pushed into the inputs must keep them"""
+        left_on = _convert_to_list(self.left_on)
+        right_on = _convert_to_list(self.right_on)
+        return left_on or [], right_on or []
+
     def _simplify_up(self, parent, dependents):
         if isinstance(parent, Filter):
             if not self._filter_passthrough_available(parent, dependents):
@@ -488,13 +495,7 @@ class Merge(Expr):
                 projection = [projection]
 
             left, right = self.left, self.right
-            left_on = _convert_to_list(self.left_on)
-            if left_on is None:
-                left_on = []
-
-            right_on = _convert_to_list(self.right_on)
-            if right_on is None:
-                right_on = []
+            left_on, right_on = self._join_columns()
 
             left_suffix, right_suffix = self.suffixes[0], self.suffixes[1]
             project_left, project_right = [], []
